@@ -334,6 +334,17 @@ VARIANTS = [
      "expect": "silent", "old": _WALK,
      "new": "      parts = short_path.split(\"/\")\n"
             "      intermediate_dirs.update(\"/\".join(parts[:i]) for i in range(1, len(parts)))\n"},
+    {"name": "twin-synthetic-init-via-setdefault", "rule": "R6.23", "file": LOADER,
+     "expect": "silent",
+     "old": "      if intermediate_dir_init not in dir_paths:\n"
+            "        log.warning(\"Created empty __init__ %r\", intermediate_dir_init)\n"
+            "        dir_paths[intermediate_dir_init] = os.devnull\n",
+     "new": "      dir_paths.setdefault(intermediate_dir_init, os.devnull)\n"},
+    {"name": "twin-ancestor-walk-with-walrus-and-path_utils", "rule": "R6.23", "file": LOADER,
+     "expect": "silent", "old": _WALK,
+     "new": "      d = short_path\n"
+            "      while (d := path_utils.dirname(d)) and d not in intermediate_dirs:\n"
+            "        intermediate_dirs.add(d)\n"},
     {"name": "ancestor-walk-through-an-unmodelled-library", "rule": "R6.23", "file": LOADER,
      "expect": "error", "old": _WALK,
      "new": "      intermediate_dirs.update(str(p) for p in pathlib.PurePath(short_path).parents)\n"},
